@@ -624,13 +624,23 @@ class Run:
             self.state[kind][slot] = {}
 
     def murmur(self, n_extra):
+        """byte strings of every length 0..64 (+ longer), also sparse ones (one non-zero byte: every
+        position of the body and of the tail matters), and pairs for hash_t::combine"""
         rng = self.rng
         lines = []
         for ln in list(range(0, 65)) + [rng.between(65, 400) for _ in range(n_extra)]:
             for _rep in range(2):
                 bs = bytes(rng.below(256) for _ in range(ln))
                 lines.append("murmur " + (bs.hex() if bs else "-"))
+            if ln:
+                lines.append("murmur " + bytes(ln).hex())
+                for pos in (range(ln) if ln <= 48 else [rng.below(ln) for _ in range(4)]):
+                    bs = bytearray(ln)
+                    bs[pos] = 1 + rng.below(255)
+                    lines.append("murmur " + bytes(bs).hex())
         lines.append("murmur " + b"hello".hex())
+        for _ in range(40):
+            lines.append("combine %d %d %d %d" % tuple(rng.choice([0, 1, 2 ** 64 - 1, rng.next()]) for _ in range(4)))
         return lines, [self.s.ask(l) for l in lines]
 
 
@@ -715,6 +725,15 @@ def replay_run(chk, exe, rp):
         return replay_threads(chk, r)
     if "lines" not in r:
         return replay_pair(chk, exe, r)
+    if r.get("tags", {}).get("kind") == "hash-collision":
+        s = Session(exe, r["problem"], 1)
+        try:
+            a = [s.ask(l) for l in r["lines"]]
+            if len(set(a)) == 1:
+                chk.violation("replay: hash128 gives %s for both %s" % (a[0], r["lines"]), r, tags=r["tags"])
+        finally:
+            s.close()
+        return
     s = Session(exe, r["problem"], r["harness_seed"])
     try:
         for l in r["lines"]:
@@ -903,11 +922,22 @@ def run(chk, replay=None):
     except Exception as e:
         broken.append("translator tools/translate_sigpath.py refuses the current sources: %s" % (e,))
 
+    pk_info = None
+    try:
+        import translate_pack
+        pk_info = translate_pack.emit(os.path.join(C.LEAN, "Vita", "C03", "GenPack.lean"))
+        chk.cov["translated_pack"] = pk_info["pack"]
+        chk.cov["translated_hashes"] = {k: pk_info[k] for k in ("mepHash", "gaHash", "deHash", "teamHash")}
+        chk.cov["translated_murmur_statements"] = pk_info["murmur_statements"]
+        chk.cov["gen_pack_changed_vs_committed"] = bool(pk_info["changed"])
+    except Exception as e:
+        broken.append("translator tools/translate_pack.py refuses the current sources: %s" % (e,))
+
     # ---- proofs --------------------------------------------------------------------------------
     drv_ok, out = C.lake_build(["c03_driver"])
     if not drv_ok:
         broken.append("driver does not build: " + C.lean_errors(out))
-    if gen_info is not None and sp_info is not None:
+    if gen_info is not None and sp_info is not None and pk_info is not None:
         ok, msg = chk.prove("Vita.C03.Props", ["Vita.C03.Props"],
                             extra_obligations=len(gen_info["methods"]) + len(sp_info["functions"]))
         if not ok:
@@ -936,6 +966,7 @@ def run(chk, replay=None):
     tstreams, tsigs = {}, {}
     n_pairs_equal = n_streams = 0
     murmur_mismatch = model_sig_mismatch = 0
+    syn_mismatch = []
     for problem in (1, 2):
         r = Run(chk, exe, problem, rng)
         try:
@@ -955,7 +986,8 @@ def run(chk, replay=None):
         uniq = {}
         for kind, content, fresh, idx in r.obs:
             uniq.setdefault(content, (kind, fresh, idx))
-        reqs = list(r.sy.lines) + list(uniq.keys()) + mlines
+        syn_lines = [("murmursyn" + l[6:]) if l.startswith("murmur ") else ("combinesyn" + l[7:]) for l in mlines]
+        reqs = list(r.sy.lines) + list(uniq.keys()) + mlines + syn_lines
         ans = C.run_driver("c03_driver", reqs)
         base = len(r.sy.lines)
         for j, (content, (kind, fresh, idx)) in enumerate(uniq.items()):
@@ -994,14 +1026,38 @@ def run(chk, replay=None):
         # ---- informational: hash function ------------------------------------------------------------
         mb = base + len(uniq)
         for j, l in enumerate(mlines):
-            if ans[mb + j].strip() != manswers[j].strip():
+            if l.startswith("murmur ") and ans[mb + j].strip() != manswers[j].strip():
                 murmur_mismatch += 1
-        chk.count("murmur_strings", len(mlines))
+            # the code AS TRANSLATED must behave as the compiled code (tie of GenPack.murmur / combine)
+            if ans[mb + len(mlines) + j].strip() != manswers[j].strip():
+                syn_mismatch.append("%s: compiled %s, translated term evaluates to %s" %
+                                    (l[:120], manswers[j].strip(), ans[mb + len(mlines) + j].strip()))
+        # every byte position feeds the hash: strings of one length never collide
+        by_len = {}
+        for j, l in enumerate(mlines):
+            if l.startswith("murmur "):
+                h = l.split()[1]
+                d = by_len.setdefault(len(h) if h != "-" else 0, {})
+                o = d.setdefault(manswers[j].strip(), h)
+                if o != h and chk.__dict__.setdefault("_c03_hc", 0) < 1:
+                    chk._c03_hc += 1
+                    chk.violation("hash128 gives the same value %s for the different byte strings %s and %s: two "
+                                  "individuals whose packed streams differ only there share a signature"
+                                  % (manswers[j].strip(), o, h),
+                                  {"problem": problem, "lines": ["murmur " + o, "murmur " + h],
+                                   "tags": {"kind": "hash-collision", "cls": "murmurhash3", "op": "hash128"}},
+                                  tags={"kind": "hash-collision", "cls": "murmurhash3", "op": "hash128"})
+        chk.count("murmur_strings", len([l for l in mlines if l.startswith("murmur ")]))
+        chk.count("combine_pairs", len([l for l in mlines if l.startswith("combine ")]))
 
     chk.cov["distinct_packed_streams"] = n_streams
     chk.cov["equal_stream_pairs_with_different_genomes"] = n_pairs_equal
     chk.cov["distinct_stream_pairs_explored"] = n_streams * (n_streams - 1) // 2
     chk.cov["hash128_vs_lean_murmur_mismatches"] = murmur_mismatch
+    chk.cov["translated_vs_compiled_mismatches"] = len(syn_mismatch)
+    if syn_mismatch:
+        broken.append("hash128 / combine as translated (GenPack) do not behave as the compiled code on %d inputs, e.g. %s"
+                      % (len(syn_mismatch), syn_mismatch[0]))
     if murmur_mismatch:
         chk.notes.append("hash function changed: vita::hash::hash128 differs from Vita.Murmur.hash128 on %d of the "
                          "random byte strings (informational: the C03 theorems are parametric in the hash)" % murmur_mismatch)
@@ -1026,6 +1082,7 @@ def finish(chk, broken):
              "distinct (problem, content, operation) triples; factorisation over all distinct contents observed",
         trusted=["Lean 4.33 kernel", "tools/translate_mutators.py (clang-14 JSON AST -> effect skeletons)",
                  "harness/c03_sig.cc (serialisation through the public const interface, load() as from-scratch builder)",
+                 "tools/translate_pack.py (pack / hash / combine / hash128 -> PackSyn, USyn terms; get_block = little-endian load)",
                  "tools/translate_sigpath.py (call-graph closure of signature() in the clang AST; std:: callees by name)",
                  "harness/c03_threads.cc, ThreadSanitizer",
                  "g++ 12.2 ASan/UBSan"])
